@@ -19,7 +19,7 @@ def _jobs(ctx):
     n = 40 if q else 500
     return (sc.corpus_job(ctx) + [(f'queue{k}', ['queue', n]) for k in range(8 if q else 12)]
             + [(f'fixrec{k}', ['fixrec', n]) for k in range(3 if q else 6)] + [(f'monfix{k}', ['monfix', n]) for k in range(2 if q else 4)]
-            + [('fixsto', ['fixrec_sto', n]), ('fixrec0', ['fixrec0', n])])
+            + [('fixsto', ['fixrec_sto', n]), ('boundary', ['fixrec0', n])])
 
 
 def _nontrivial(e):
